@@ -24,8 +24,14 @@ What is proved here (for all inputs, on the hand-written models that the harness
   bare uses in the hand-written handlers) and `"{:07.5f}".format(float(t))` / `Fraction()` (`SecondsType`) over exact
   binary64 values: `fmt5_parse_fmt5` (print ∘ parse ∘ print = print for every finite double, no magnitude bound),
   `parse_fmt5_close`, `parse_fmt5_exact_of_5dec`, `parse_fmt5_idempotent`, `seconds_roundtrip`,
-  `seconds_exact_of_5dec`, and `floatCodec_refines`, which ties the printable-grid float codec of the handler-table
-  model (`Leaf.num k`) to the real text and the real doubles.
+  `seconds_exact_of_5dec`, and the two LEAF-LEVEL bridges `floatCodec_refines` / `secondsCodec_refines`: for ONE
+  grid value `|k| / 10^5 < 2^36` the printable-grid codec of the handler-table model (`Leaf.num k`, `dumpsNum`,
+  `loadsNum`) writes the text the real code writes for the nearest double (resp. for the Fraction `k / 10^5`) and the
+  real reader maps that text back to that double (resp. Fraction).  They are NOT composed with the class / document
+  theorems: `C08_roundtrip_model` and every class theorem are statements over `Leaf.num (k : ℤ)` with no bound on `k`
+  and with `loadsNum`, which is the inverse of `dumpsNum` on its image only (not `float()`: `0.5`, `1`, `1e0` are
+  outside, `-0.00000` is read as 0); what the grid model cannot express is listed in `grid_model_excluded_points`
+  (`-0.0`, gain = -1e-7, other spellings, leaves beyond the bound).
 
 What is NOT proved (hence the summary is still `C08_partial`): lxml parsing and serialisation and bytes <-> str (the
 tree is abstract, CHNA strings are 7-bit), attrs validators other than the ones stated, the AudioStreamFormatWrapper
@@ -1306,8 +1312,9 @@ theorem parse_fmt5_close (neg : Bool) (m : ℚ) (hm : IsDouble m) :
 
 /-- **parse ∘ print is the identity on parsed documents.**  `x` = the double nearest to a decimal with at most five
 fractional digits, `k / 10^5 < 2^36` (≈ 6.9e10): `x` is a binary64 number, it is printed as exactly
-`[-]⌊k/10^5⌋.ddddd` and that text is read back as `x`.  The bound is sharp for the printed text
-(`grid_bound_sharp`: `2^36 + 0.00001` comes back as `….00002`). -/
+`[-]⌊k/10^5⌋.ddddd` and that text is read back as `x`.  The bound cannot be raised past the next grid point:
+`k = 2^36·10^5` itself still satisfies the conclusion, `k = 2^36·10^5 + 1` does not (`grid_bound_sharp`: the double
+nearest to `2^36 + 0.00001` has `roundHalfEven (x·10^5) = …00002`). -/
 theorem parse_fmt5_exact_of_5dec (neg : Bool) (k : ℕ) (hk : k < 2 ^ 36 * 10 ^ 5) :
     IsDouble (rn53 ((k : ℚ) / 100000)) ∧
     fmt5 (.fin neg (rn53 ((k : ℚ) / 100000))) = (if neg then '-' :: numText k else numText k) ∧
@@ -1340,14 +1347,47 @@ theorem seconds_exact_of_5dec (k : ℕ) (hk : k < 2 ^ 36 * 10 ^ 5) :
     secondsDumps ((k : ℚ) / 100000) = some (numText k) ∧ parseFraction (numText k) = some ((k : ℚ) / 100000) :=
   Earverif.FloatText.seconds_exact_of_5dec k hk
 
-/-- the float codec of the handler-table model (`Leaf.num k`, used by `handlers_codec_roundtrip` and every class
-theorem) is the real codec restricted to the doubles nearest to `k / 10^5` -/
+/-- ONE LEAF: the float codec of the handler-table model (`Leaf.num k`, used by `handlers_codec_roundtrip` and
+every class theorem) writes, for `|k| / 10^5 < 2^36`, the text the real `FloatType.dumps` prints for the double nearest
+to `k / 10^5`, and the real `FloatType.loads` reads that text as that double.  Free-standing: the class / document
+theorems carry no bound on `k` and are not restated over doubles (see the file header). -/
 theorem floatCodec_refines (k : ℤ) (hk : k.natAbs < 2 ^ 36 * 10 ^ 5) :
     (Earverif.XmlCodec.dumpsNum k).toList = fmt5 (.fin (decide (k < 0)) (rn53 ((k.natAbs : ℚ) / 100000))) ∧
     parseFloat (Earverif.XmlCodec.dumpsNum k).toList = some (.fin (decide (k < 0)) (rn53 ((k.natAbs : ℚ) / 100000))) ∧
     Earverif.XmlCodec.loadsNum (Earverif.XmlCodec.dumpsNum k) = some k ∧
     IsDouble (rn53 ((k.natAbs : ℚ) / 100000)) :=
   Earverif.FloatText.floatCodec_refines k hk
+
+/-- ONE LEAF: jumpPosition `interpolationLength` is modelled with `dumpsNum` / `loadsNum`, the real code uses
+`SecondsType` (`"{:07.5f}".format(float(t))` / `Fraction(str)`): for `0 ≤ k`, `k / 10^5 < 2^36` the real writer prints
+exactly `dumpsNum k` for the Fraction `k / 10^5` and the real reader maps that text to exactly `k / 10^5` -/
+theorem secondsCodec_refines (k : ℤ) (h0 : 0 ≤ k) (hk : k.natAbs < 2 ^ 36 * 10 ^ 5) :
+    secondsDumps ((k : ℚ) / 100000) = some (Earverif.XmlCodec.dumpsNum k).toList ∧
+    parseFraction (Earverif.XmlCodec.dumpsNum k).toList = some ((k : ℚ) / 100000) ∧
+    Earverif.XmlCodec.loadsNum (Earverif.XmlCodec.dumpsNum k) = some k :=
+  Earverif.FloatText.secondsCodec_refines k h0 hk
+
+/-- non-vacuity of the two bridges: 0.25 s and the gain -0.5 -/
+example : (0 : ℤ) ≤ 25000 ∧ (25000 : ℤ).natAbs < 2 ^ 36 * 10 ^ 5 ∧ (-50000 : ℤ).natAbs < 2 ^ 36 * 10 ^ 5 ∧
+    Earverif.XmlCodec.dumpsNum 25000 = "0.25000" ∧ Earverif.XmlCodec.dumpsNum (-50000) = "-0.50000" := by
+  decide +kernel
+
+/-- what the printable-grid model cannot express or gets differently from the real float leaf (kernel-checked):
+the text `-0.00000` (written for `-0.0` and for gain = -1e-7; `float()` keeps `-0.0`, the model reads 0 and no
+`Leaf.num k` prints it: `negzero_not_grid`), the spellings `0.5` / `1` / `1e0` (`none` for `loadsNum`), and a leaf beyond
+the bound, which the class theorems cover although the printer never writes it for the nearest double -/
+theorem grid_model_excluded_points :
+    ((fmt5 (.fin true (rn53 (mkRat 1 (10 ^ 7)))) = ['-', '0', '.', '0', '0', '0', '0', '0'] ∧
+     parseFloat ['-', '0', '.', '0', '0', '0', '0', '0'] = some (.fin true 0) ∧
+     Earverif.XmlCodec.loadsNum "-0.00000" = some 0 ∧ Earverif.XmlCodec.dumpsNum 0 = "0.00000") ∧
+    (Earverif.XmlCodec.loadsNum "0.5" = none ∧ Earverif.XmlCodec.loadsNum "1" = none ∧
+     Earverif.XmlCodec.loadsNum "1e0" = none ∧
+     parseFloat ['0', '.', '5'] = some (.fin false (mkRat 1 2)) ∧ parseFloat ['1'] = some (.fin false 1) ∧
+     parseFloat ['1', 'e', '0'] = some (.fin false 1)) ∧
+    (Earverif.XmlCodec.dumpsNum (2 ^ 36 * 10 ^ 5 + 1)).toList ≠
+      fmt5 (.fin false (rn53 (mkRat (2 ^ 36 * 10 ^ 5 + 1) 100000)))) ∧
+    (∀ k : ℤ, (Earverif.XmlCodec.dumpsNum k).toList ≠ ['-', '0', '.', '0', '0', '0', '0', '0']) :=
+  ⟨Earverif.FloatText.grid_model_excluded_points, Earverif.FloatText.negzero_not_grid⟩
 
 /-- sharpness / excluded points, checked by the kernel on the executable model -/
 theorem float_leaf_excluded_points :
@@ -1391,8 +1431,9 @@ end FloatLeaf
 layer for both versions (document level, `C08_roundtrip_model`), the CHNA <-> audioTrackUID transfer (both directions,
 CHNA-only documents) and the id map / reference resolution (duplicate ids rejected, closed documents resolved,
 dangling references rejected, write → parse gives back the same ids in every reference attribute).  The float leaf is
-proved separately (section FloatLeaf: `fmt5_parse_fmt5`, `parse_fmt5_close`, `parse_fmt5_exact_of_5dec`,
-`seconds_roundtrip`, `floatCodec_refines`).  Still missing for the full property, and covered only by the
+proved separately and NOT composed with the class theorems (section FloatLeaf: `fmt5_parse_fmt5`,
+`parse_fmt5_close`, `parse_fmt5_exact_of_5dec`, `seconds_roundtrip`; `floatCodec_refines` / `secondsCodec_refines` are
+one-leaf bridges to the grid model, `grid_model_excluded_points` lists what that model cannot express).  Still missing for the full property, and covered only by the
 generated-document search of the harness: lxml and the byte level of AXML (the tree is abstract), attrs validators. -/
 theorem C08_partial :
     (∀ (q : ℚ), 0 ≤ q → q < 360000 → ExactDecimal q → ∀ af, ∃ s, unparseTime af (.dec q) = .ok s ∧
